@@ -164,13 +164,19 @@ Proof.
   (destruct (tag_known_cases _ Htag) as [T|[T|[T|[T|[T|[T|T]]]]]]; rewrite T in *; clear T;
    unfold tag_select, mid_text, is_ug, name_opt, uid_field, id_text in *; eval_eqb; cbn [orb andb negb] in *;
    rewrite ?Hnfs, ?Hposix in *; cbn [orb andb negb] in *;
-   destruct (bit flags ACL_STYLE_EXTRA_ID) eqn:EX; destruct (bit flags ACL_STYLE_SOLARIS) eqn:ES;
-   destruct (ename e) as [|c0 nm] eqn:EN; destruct wide; destruct fxl; cbn [orb andb negb] in *;
+   (* only the tests that matter for the tag at hand are split *)
+   try (match goal with |- context [bit flags ACL_STYLE_EXTRA_ID] => destruct (bit flags ACL_STYLE_EXTRA_ID) eqn:EX end);
+   try (match goal with |- context [bit flags ACL_STYLE_SOLARIS] => destruct (bit flags ACL_STYLE_SOLARIS) eqn:ES end);
+   try (match goal with |- context [ename e] => destruct (ename e) as [|c0 nm] eqn:EN end);
+   try (match goal with |- context [if wide then _ else _] => destruct wide end);
+   try (match goal with |- context [fxl && _] => destruct fxl end);
+   cbn [orb andb negb] in *;
    rewrite ?Hm1;
    change ((-1 =? -1)%Z) with true; cbn iota;
    try (destruct (eid e =? -1)%Z eqn:EI);
    repeat rewrite app_length; cbn [length s_user s_group s_other s_mask s_owner_at s_group_at s_everyone_at c_colon];
    repeat rewrite Nat2N.inj_add;
+   try (destruct wide; destruct fxl; cbn [orb andb negb] in Hsafe);
    try (destruct (eid e <? 1000000)%Z eqn:E6; [apply Z.ltb_lt in E6; specialize (Hsmall E6)|try discriminate]);
    lia).
 Qed.
